@@ -833,7 +833,7 @@ pub fn exec(song: &mut Song, tokens: &Vec<Token>) -> bool {
                 let varname = t.value_s.clone().unwrap_or(String::new());
                 let val_inc = t.value_i;
                 let val = song.variables_get(&varname).unwrap_or(&SValue::Int(0));
-                song.variables_insert(&varname, SValue::from_i(val.to_i() + val_inc));
+                song.variables_insert(&varname, SValue::from_i(val.to_i().wrapping_add(val_inc))); // like + - * in expressions: wrap, never panic
                 // let val = song.variables_get(&varname).unwrap_or(&SValue::Int(0));
                 // println!("inc={}={}", varname, val.to_i());
             },
@@ -1660,8 +1660,7 @@ fn set_note_info_with_default_value(note: &mut NoteInfo, song: &mut Song) {
         } else {
             0
         };
-        noteno += song.key_shift;
-        noteno += trk!(song).track_key;
+        noteno = noteno.saturating_add(song.key_shift).saturating_add(trk!(song).track_key); // any key shift: no overflow
     }
     note.no = noteno;
 }
@@ -1974,7 +1973,7 @@ fn exec_note_n(song: &mut Song, t: &Token) {
     let event = Event::note(
         trk!(song).timepos + t,
         trk!(song).channel,
-        value_range(0, data_note_no + track_key + key_shift, 127),
+        value_range(0, data_note_no.saturating_add(track_key).saturating_add(key_shift), 127),
         notelen_real,
         v,
     );
